@@ -176,6 +176,9 @@ func runHugeTree(o *hlib.Out, seed uint64, k int64, emitOnly map[string]bool) {
 
 func synDecode(d *decode.D) any {
 	k := synVariant
+	if k >= 300 {
+		return synDecodeLarge(d)
+	}
 	if k >= 200 {
 		return synDecodeHuge(d)
 	}
@@ -297,6 +300,8 @@ func runSynthetic(o *hlib.Out, r *hlib.Rand, thorough bool) {
 	for k := int64(0); k < nHuge; k++ {
 		runHugeTree(o, r.U64()%1000000, 200+k, nil)
 	}
+	// values larger than 64 KiB at every alignment through every tobytes-based renderer (large.go)
+	runLarge(o, r.Fork(), thorough)
 	o.Stat("exhaustive_small_domain", 1)
 	o.Stat("syn_alignments", 8)
 	o.Stat("syn_max_len", 70)
